@@ -117,7 +117,12 @@ func init() {
 					directedKind = "meta"
 				}
 			}
+			if c.replay == nil && !directed && i%20 == 10 {
+				directed, directedKind = true, "capVarReuse"
+			}
 			switch directedKind {
+			case "capVarReuse":
+				prog = g.capVarReuseProgram(false)
 			case "meta":
 				prog = g.metaOverrideProgram()
 			case "unbounded":
